@@ -53,6 +53,22 @@ Fixpoint value_eqb (a b : value) {struct a} : bool :=
    Py/PySerdeProofs.v, dec_rep_cap.) *)
 Definition capped (len : Z) (r : bits) : nat := Z.to_nat (Z.min len (Z.of_nat (S (length r)))).
 
+(* a lower bound on the bits a successful decode of the type consumes *)
+Fixpoint min_bits (t : rty) : nat :=
+  match t with
+  | RU n | RI n | REnum n => n
+  | RF32 => 32 | RF64 => 64
+  | RStr | RDyn _ => 32
+  | ROpt _ => 8
+  | RArr t' n => n * min_bits t'
+  | RStruct fs => (fix go (fs : list (string * rty)) : nat := match fs with [] => 0 | f :: fs' => min_bits (snd f) + go fs' end) fs
+  end%nat.
+
+(* elements that may occupy no bit at all (an array of size 0, an empty struct ...) cannot be capped by the bits that are left:
+   the announced count is then taken as it is, up to a size the evaluation can hold *)
+Definition capped_for (t : rty) (len : Z) (r : bits) : nat :=
+  if Nat.eqb (min_bits t) 0 then Z.to_nat (Z.min len 200000) else capped len r.
+
 Definition gdec_capped (sdec : nat -> Z -> Z) : rty -> bits -> outcome (value * bits) :=
   fix dec (t : rty) (bs : bits) {struct t} : outcome (value * bits) :=
   match t with
@@ -68,7 +84,7 @@ Definition gdec_capped (sdec : nat -> Z -> Z) : rty -> bits -> outcome (value * 
   | RArr t n => bind (dec_rep (dec t) n bs) (fun '(vs, r) => Ok (VList vs, r))
   | RDyn t =>
       bind (read_word 32 bs) (fun '(len, r) =>
-      bind (dec_rep (dec t) (capped len r) r) (fun '(vs, r') => Ok (VList vs, r')))
+      bind (dec_rep (dec t) (capped_for t len r) r) (fun '(vs, r') => Ok (VList vs, r')))
   | ROpt t =>
       bind (read_word 8 bs) (fun '(w, r) =>
       if w =? 0 then Ok (VNone, r) else bind (dec t r) (fun '(v, r') => Ok (VSome v, r')))
